@@ -137,6 +137,15 @@ def build(engine):
 
 
 WHAT = {
+    'server_conform:git-seal': 'BOUNDED (executed, not proved): the git-backed server stores versions and snapshots only in the documented sealed form (format byte 1, '
+                               'fresh 12-byte nonce, payload + 16-byte tag; base64 inside the snapshot file), no task content appears in any file of the repository, '
+                               'and every single-bit modification of every byte, every truncation, re-labelled versions and snapshots, foreign sealed data and a '
+                               'different secret are rejected with an error rather than returned',
+    'replica_exec:c12': 'BOUNDED (executed, not proved): for every edit sequence of up to 4 (thorough: 5) steps and each of 5 urgency / avoid_snapshots '
+                        'combinations, a snapshot is handed to the harness-side Server only at or above the replica\'s threshold, labelled with the version '
+                        'just accepted, and -- decompressed and parsed independently -- contains exactly the task set obtained by an independent replay '
+                        'of the version documents up to that version; a fresh replica synced from the snapshot and the later versions (earlier ones '
+                        'discarded) ends in the state of the whole chain; a replica that already holds data keeps it',
     'server_conform:git-fault': 'BOUNDED (executed, not proved): on the git-backed server with a shared remote, every git command of add_version / add_snapshot '
                                 'on one replica is made to fail in turn (not run / run but reported failed / this and all later commands fail), every handle '
                                 'is then restarted, and the protocol contract must hold: the interrupted version is either accepted for everyone or visible to '
@@ -223,7 +232,7 @@ def run(h, prop, tier):
     out['outside_contract_skipped'] = summary.get('outside_contract_skipped')
     out['known_hits'] = summary.get('known_finding_hits') or {}
     out['signatures'] = summary.get('signatures') or {}
-    if summary.get('executed', 0) == 0 and not out['known_hits']:
+    if summary.get('executed', 0) == 0 and not out['known_hits'] and not summary.get('mismatches'):
         out['undecided'].append('%s: no scenario was executed' % engine)
         return out
     if summary['mismatches'] == 0 and p.returncode == 0:
